@@ -1229,7 +1229,11 @@ class Interp:
         if spec is None or spec.inv is None:
             return
         ns = NS(scope, old, extra)
-        conds = spec.inv(ns)
+        CTX.assuming = getattr(CTX, "assuming", 0) + 1
+        try:
+            conds = spec.inv(ns)
+        finally:
+            CTX.assuming -= 1
         if not isinstance(conds, (list, tuple)):
             conds = [conds]
         for c in conds:
@@ -1334,10 +1338,10 @@ class Interp:
             n = 0
             while True:
                 c = self.eval(s.test, scope)
-                if is_sym(c) or isinstance(c, Opaque):
-                    if n == 0 and CTX.mode == "sym":
-                        raise OutOfSubset("while loop %s needs an invariant" % (key,))
-                    raise OutOfSubset("while loop %s became symbolic without an invariant" % (key,))
+                if (is_sym(c) or isinstance(c, Opaque)) and n >= 6:
+                    # without an invariant a symbolic guard is followed for a few iterations only
+                    # (every feasible path is explored; longer runs are outside the subset)
+                    raise OutOfSubset("while loop %s needs an invariant (still symbolic after %d iterations)" % (key, n))
                 if not self.truthy(c):
                     break
                 if self._run_body(s.body, scope) == "break":
